@@ -228,7 +228,7 @@ func init() {
 		Harnesses: []HarnessSpec{
 			{Name: "C07_signs", Expect: []string{"end", "sign-stage-preserves-meaning"}, Witnesses: 8,
 				Quick:    grid([]string{"L"}, seq(0, 5)),
-				Thorough: grid([]string{"L"}, seq(0, 7))},
+				Thorough: grid([]string{"L"}, seq(0, 6))},
 			{Name: "C07_glue", Expect: []string{"accepted", "value-equals-reference"}, Witnesses: 8,
 				Quick:    grid([]string{"depth"}, []int{0}),
 				Thorough: grid([]string{"depth"}, []int{0})},
@@ -294,6 +294,21 @@ func init() {
 			{Name: "C08_sequence_probe", Role: "known:for-pass-limit-12", Witnesses: 1,
 				Quick:    []Params{{"blocks": 13, "probe": 1}},
 				Thorough: []Params{{"blocks": 13, "probe": 1}}},
+		},
+	})
+
+	Properties = append(Properties, &PropertySpec{
+		ID: "C14", UsesEvalModel: true,
+		Harnesses: []HarnessSpec{
+			{Name: "C14_copy", Expect: []string{"end", "simulator-keeps-its-own-copy"}, Witnesses: 4,
+				Quick:    grid([]string{"M", "len"}, []int{5, 8}, []int{1, 3}),
+				Thorough: grid([]string{"M", "len"}, []int{3, 5, 8, 13}, []int{1, 2, 3})},
+			{Name: "C14_maporder", Expect: []string{"end", "result-independent-of-map-order"}, Witnesses: 2,
+				Quick:    grid([]string{"maporder", "entry"}, seq(0, 11), []int{1, 2}),
+				Thorough: grid([]string{"maporder", "entry"}, seq(0, 47), []int{0, 1, 2, 3})},
+			{Name: "C14_footprint", Expect: []string{"end"}, Witnesses: 2,
+				Quick:    grid([]string{"M"}, []int{8}),
+				Thorough: grid([]string{"M"}, []int{8, 13})},
 		},
 	})
 }
